@@ -57,9 +57,9 @@ fn inline_of<'a, T: DiffableStr + ?Sized>(
 /// newline_terminated(false), 2 = caller-split lines through diff_slices
 fn check_diff<T: DiffableStr + ?Sized>(alg: Algorithm, old: &T, new: &T, kind: &str) -> Result<(u64, u64, u64, bool), String> {
     let mut total = (0, 0, 0, false);
-    for construction in 0..3 {
+    for construction in 0..4 {
         let r = check_diff_with(alg, old, new, kind, construction)
-            .map_err(|e| format!("[{}] {}", ["diff_lines", "diff_lines + newline_terminated(false)", "diff_slices over caller-split lines"][construction], e))?;
+            .map_err(|e| format!("[{}] {}", ["diff_lines", "diff_lines + newline_terminated(false)", "diff_slices over caller-split lines", "diff_slices over lines the caller split at LF only (CR stays inside the lines)"][construction], e))?;
         total.0 += r.0;
         total.1 += r.1;
         total.2 ^= r.2.rotate_left(construction as u32);
@@ -72,10 +72,30 @@ fn check_diff_with<T: DiffableStr + ?Sized>(alg: Algorithm, old: &T, new: &T, ki
     let r = subject(|| -> Result<(u64, u64, u64, bool), String> {
         let lo = old.tokenize_lines();
         let ln = new.tokenize_lines();
+        // lines cut after every LF only
+        let lf_split = |t: &'_ T| -> Vec<std::ops::Range<usize>> {
+            let b = t.as_bytes();
+            let mut v = vec![];
+            let mut start = 0;
+            for (i, &c) in b.iter().enumerate() {
+                if c == b'\n' {
+                    v.push(start..i + 1);
+                    start = i + 1;
+                }
+            }
+            if start < b.len() {
+                v.push(start..b.len());
+            }
+            v
+        };
+        // (DiffableStr::slice counts in the type's own units: bytes for str and [u8])
+        let lo2: Vec<&T> = lf_split(old).into_iter().map(|r| old.slice(r)).collect();
+        let ln2: Vec<&T> = lf_split(new).into_iter().map(|r| new.slice(r)).collect();
         let diff = match construction {
             0 => TextDiff::configure().algorithm(alg).diff_lines(old, new),
             1 => TextDiff::configure().algorithm(alg).newline_terminated(false).diff_lines(old, new),
-            _ => TextDiff::configure().algorithm(alg).diff_slices(&lo, &ln),
+            2 => TextDiff::configure().algorithm(alg).diff_slices(&lo, &ln),
+            _ => TextDiff::configure().algorithm(alg).newline_terminated(true).diff_slices(&lo2, &ln2),
         };
         let mut fp = Fp::new();
         let mut expansions = 0;
